@@ -229,6 +229,11 @@ impl<const H: usize> Reader<H> {
             });
         }
 
+        // A payload shorter than the fixed header cannot have been written by us
+        if payload_len < H {
+            return Err(ReadError::Crc32cMismatch { offset });
+        }
+
         // Read header + data payload
         let (header, compressed_data) = if payload_len <= OPTIMISTIC_DATA_SIZE
             && optimistic_read_len >= RECORD_HEAD_SIZE + payload_len
@@ -345,6 +350,11 @@ impl<const H: usize> Reader<H> {
                 length: RECORD_HEAD_SIZE + payload_len,
                 flushed_offset,
             });
+        }
+
+        // A payload shorter than the fixed header cannot have been written by us
+        if payload_len < H {
+            return Err(ReadError::Crc32cMismatch { offset });
         }
 
         let payload =
